@@ -100,6 +100,42 @@ CLAIMS = {
         design="5/C14", note=COMMON_NOTE + "Modelled not verified: networkx path search (replaced by the model's own enumeration), the parsers and the role assignment (taken from the implementation per kernel: the model consumes the implementation's semantic operands, latencies and register changes). lcd_rotation_invariant is stated (TODO-FULL) but not proved; claimed below proof level.",
         technique="Lean 4 model + metamorphic differential validation on implementation and model",
     ),
+    "C17": dict(
+        text="Cache state machine (Load/Edit/CrashDuringWrite/ConcurrentLoad/ForeignCache/NewProcess over companion, home and runtime "
+             "caches) with invariant; theorems for every history, content, directory layout, schedule and process count under hash "
+             "injectivity: inv_reachable, history_transparent, load_transparent, cache_state_irrelevant, torn_ignored, race_safe (any "
+             "interleaving of N loaders at probe/open/write/close/rename granularity), race_interrupted_safe, atomic_no_torn; "
+             "counterexamples for the write-in-place code. Tie: translator (INTERNAL_VERSION, file-name expressions, tolerant-read / "
+             "atomic-write shape flags) + real MachineModel driven in subprocesses through random operation histories incl. truncation "
+             "at each offset class and simultaneous cold starts, compared with cache-less runs.",
+        design="5/C17 + notes/C17.md",
+        note=COMMON_NOTE + "Partial by nature: atomicity of os.replace, pickle, real process scheduling are runtime behaviour sampled by the "
+             "correspondence only. Not reached: a model file edited while it is being loaded.",
+        technique="Lean 4 proof (invariant by induction over operation histories and interleavings) + history-driven correspondence",
+    ),
+    "C18": dict(
+        text="History model with the machine model as explicit state and Python list aliasing made explicit; configuration flags "
+             "(which sites copy/share/extend in place) regenerated from the AST; theorems for all Dbs, kernels and histories: "
+             "analyse_preserves_db, history_independent, repeat_equal, inspect_history_independent, cache_clean_after_any_history, and "
+             "exactness (every unsafe configuration has a polluting history). Tie: every history runs in one fresh worker process, "
+             "object-identity trace of which model lists each line received replayed through the model; structural digest of runtime "
+             "caches/ISA models/parser singletons after every call; every report vs a fresh-process run.",
+        design="5/C18 + notes/C18.md",
+        note=COMMON_NOTE + "Partial by nature: Python object aliasing is what the digest observes; balancer/KernelDG/Frontend are covered only by "
+             "the fresh-process comparison.",
+        technique="Lean 4 proof (state-threading refinement, induction over histories) + in-process history correspondence",
+    ),
+    "C20": dict(
+        text="Import model over exact rationals; theorems for all measurements, line sequences and files: tp_snap_spec (iff), "
+             "tp_window_unique, tp_reject_spec, lt_snap_spec/complete/reject, decode tables for both ISAs, dispatch_spec, key_spec, "
+             "ibench_merge (any interleaving), asmbench_prefix, import_emits_all_a64, import_emits_all_partial (+ proof that the full "
+             "statement is false on x86: known finding D11). Tie: translator (1.05/0.95, range(1,11), round 5, tags, offsets, operand "
+             "code tables) + in-process parser correspondence on generated files + CLI import into scratch models.",
+        design="5/C20 + notes/C20.md",
+        note=COMMON_NOTE + "Float behaviour exactly on a 5% edge is unspecified (either outcome accepted within 1e-9). Known finding: imported x86 "
+             "form with an existing mnemonic+arity is not emitted.",
+        technique="Lean 4 proof (rational arithmetic, folds over line sequences) + differential correspondence through the CLI",
+    ),
 }
 
 REASON_TODO = "no theorem + checked tie built yet in this round; planned per DESIGN.md section 5 (not claimed until both exist)"
